@@ -479,21 +479,37 @@ package core
 //@   ensures fresh(result.arr) && 0 <= result.off
 //@ extern bytes.Join(s, sep)
 //@   attr pure deterministic nopanic
+// hasPrefixB: "the bytes (pa, po, pn) are an initial segment of the bytes (sa, so, sn)" - what bytes.HasPrefix decides (abstract)
+//@ opaque pred hasPrefixB(sa int, so int, sn int, pa int, po int, pn int)
 //@ extern bytes.HasPrefix(s, prefix)
 //@   attr pure deterministic nopanic
+//@   ensures result == hasPrefixB(s.arr, s.off, len(s), prefix.arr, prefix.off, len(prefix))
 //@ func description(b)
 //@   property C01,C06
 //@   modifies[C01,C06,@input-bytes-untouched] nothing
 //@ func descriptionRemoveParentheses(b)
 //@   property C01,C06
 //@   modifies[C01,C06,@input-bytes-untouched] nothing
+// The indentation removed from a Description is an initial segment of EVERY non-empty line (C08: re-indenting the document
+// uniformly must not leave absolute indentation in the catalog; a line that is skipped keeps its own). Two facts about
+// initial segments are axioms: a slice's own initial segments, and an initial segment of an initial segment.
 //@ func longestWhitespacePrefix(bb)
-//@   property C01,C06
+//@   property C01,C06,C08
+//@   requires 0 <= bb.off
 //@   modifies[C01,C06,@input-bytes-untouched] nothing
+//@   axiom forallp(a, o, n, k, hasPrefixB(a, o, n, a, o, k), imp(0 <= k && k <= n, hasPrefixB(a, o, n, a, o, k)))
+//@   axiom forallp(sa, so, sn, pa, po, pn, m, hasPrefixB(sa, so, sn, pa, po, pn), hasPrefixB(sa, so, sn, pa, po, m),
+//@       imp(hasPrefixB(sa, so, sn, pa, po, pn) && 0 <= m && m <= pn, hasPrefixB(sa, so, sn, pa, po, m)))
+//@   ensures[C08,@common-indentation] forallp(j, at(bb, j), imp(bb.off <= j && j < bb.off + len(bb) && len(at(bb, j)) != 0,
+//@       hasPrefixB(at(bb, j).arr, at(bb, j).off, len(at(bb, j)), result.arr, result.off, len(result))))
 //@ func longestWhitespacePrefix loop 2
-//@   invariant len(prefix) >= 1
+//@   invariant len(prefix) >= 1 && 1 <= i && prefix.arr == at(bb, bb.off).arr && prefix.off == at(bb, bb.off).off && len(prefix) <= len(at(bb, bb.off))
+//@   invariant forallp(j, at(bb, j), imp(bb.off < j && j < bb.off + i && len(at(bb, j)) != 0,
+//@       hasPrefixB(at(bb, j).arr, at(bb, j).off, len(at(bb, j)), prefix.arr, prefix.off, len(prefix))))
 //@ func longestWhitespacePrefix loop 3
-//@   invariant len(prefix) >= 1
+//@   invariant len(prefix) >= 1 && prefix.arr == at(bb, bb.off).arr && prefix.off == at(bb, bb.off).off && len(prefix) <= len(at(bb, bb.off))
+//@   invariant forallp(j, at(bb, j), imp(bb.off < j && j < bb.off + i && len(at(bb, j)) != 0,
+//@       hasPrefixB(at(bb, j).arr, at(bb, j).off, len(at(bb, j)), prefix.arr, prefix.off, len(prefix))))
 //@ extern strings.Trim(s, cutset)
 //@   attr pure deterministic nopanic
 // Path parameters (C01: no index leaves its string; C03: empty and duplicated parameters are rejected; similar paths:
